@@ -332,9 +332,29 @@ def h_construct(eng, st, cv: VClass, args, kwargs):
         paths = [(st, None)]
         if args:
             raise Unsupported("positional args to a protobuf constructor")
+        fds_ = {fd.name: fd for fd in c.DESCRIPTOR.fields}
         for k, v in kwargs.items():
             nxt = []
             for s, r in paths:
+                if r is None and isinstance(v, VNoneT):
+                    nxt.append((s, None))        # protobuf constructors ignore keyword arguments that are None (the field keeps its default)
+                    continue
+                if r is None and isinstance(v, VUnion) and any(isinstance(a_, VNoneT) for _, a_ in v.alts):
+                    for s_a, v_a in eng.split_union(v, s):
+                        if isinstance(v_a, VNoneT):
+                            nxt.append((s_a, None))
+                        else:
+                            nxt.extend(h_msg_setattr(eng, s_a, ref, s_a.heap[ref.oid], k, v_a))
+                    continue
+                if r is None and k in fds_ and is_repeated(fds_[k]):
+                    # repeated field given to the constructor: the elements are copied into the field
+                    try:
+                        items = eng.iter_concrete(v, s)
+                        s.heap[s.heap[ref.oid].f[k].oid].f["items"] = list(items)
+                    except Unsupported:
+                        s.heap[ref.oid].f[k] = v
+                    nxt.append((s, None))
+                    continue
                 nxt.extend(h_msg_setattr(eng, s, ref, s.heap[ref.oid], k, v) if r is None else [(s, r)])
             paths = nxt
         return [(s, ref if r is None else r) for s, r in paths]
